@@ -5,13 +5,13 @@
 // embedded and embedded-pointer fields and methods, interfaces, named non-struct types, imported packages)
 // it asks the real implementation to complete many lines at many cursor positions and
 //   - judges the answer with a reference that never consults the Coq model (direct oracle):
-//       single word : completions == sorted unique { n in U | HasPrefix(n, typed) } where U = names a fresh
-//                     interpreter exposes (collected once through one-letter prefixes) + the names declared here
-//       var chain   : completions == sorted unique { m in members | HasPrefix(m, typed) } where members follows Go's
-//                     selector rules on the declarations generated here (fields, promoted fields, methods,
-//                     methods promoted through embedded values / pointers / interfaces)
-//       pkg chain   : completions == filter of what the same package lists for the empty prefix, all exported
-//       every case  : strictly sorted; tail == line[pos:]; head+typed == line[:pos]; typed is a prefix of every completion
+//     single word : completions == sorted unique { n in U | HasPrefix(n, typed) } where U = names a fresh
+//     interpreter exposes (collected once through one-letter prefixes) + the names declared here
+//     var chain   : completions == sorted unique { m in members | HasPrefix(m, typed) } where members follows Go's
+//     selector rules on the declarations generated here (fields, promoted fields, methods,
+//     methods promoted through embedded values / pointers / interfaces)
+//     pkg chain   : completions == filter of what the same package lists for the empty prefix, all exported
+//     every case  : strictly sorted; tail == line[pos:]; head+typed == line[:pos]; typed is a prefix of every completion
 //   - writes the state (as seen through the exported xreflect API), the line, the cursor and the observed
 //     answer as a Coq term; ./check evaluates Verif.C36.Model.complete_line on it (correspondence).
 package main
@@ -76,7 +76,7 @@ type state struct {
 	ifaces   []ifaceDecl
 	nameds   []namedDecl
 	vars     []varDecl
-	declared map[string]bool // every top-level name declared (incl. imports)
+	declared map[string]bool   // every top-level name declared (incl. imports)
 	kind     map[string]string // declared top-level name -> var | const | func | type | import
 	imports  []string
 	src      []string
@@ -433,7 +433,6 @@ func filterPrefix(names []string, p string) []string {
 	return out
 }
 
-
 // ---------------------------------------------------------------- member kinds (for the exact-name sweep)
 
 // memberKinds classifies every member name valid on a value of type t (shallowest occurrence wins):
@@ -673,7 +672,7 @@ func (cv *conv) scope(c *fast.Comp, rot int, depth int) string {
 type query struct {
 	Line  string `json:"line"`
 	Pos   int    `json:"pos"`
-	Class string `json:"class"` // word | chain | pkg | free
+	Class string `json:"class"`           // word | chain | pkg | free
 	Exact string `json:"exact,omitempty"` // kind of the name typed in full (exact-name sweep)
 	// reference
 	Typed string   `json:"typed,omitempty"`
@@ -729,6 +728,9 @@ func main() {
 		"2-6 struct types with plain/embedded/embedded-pointer/embedded-interface fields, shadowing across depths, value and pointer receiver methods; variables of those types and pointers to them; "+
 		"4-13 vars/consts/funcs whose names share prefixes with keywords and builtins); per state: single-word queries (prefixes of declared names, keywords, builtins, with left context and text after the cursor), "+
 		"variable chains of 1-3 selectors with optional blanks around dots ending in a (possibly empty or non-matching) partial member name, package chains, and free-form lines over {a,b,t,T,.,blank,1,_,(,+} with arbitrary cursors (also negative and past the end). "+
+		"plus an exact-name sweep per state: the typed word is the FULL name of a candidate of every kind - single words: var/const/func/type/import/keyword/predeclared; variable chains: field/embedded field/method/promoted field/promoted method/interface method; "+
+		"package chains: func/var/const/type of every imported package - preferring names that are proper prefixes of other candidates (the exact match must be offered together with its extensions); partial words are the whole name 1 time in 5; "+
+		"imports from {strings,fmt,math,sort,strconv,errors,bytes,reflect,time,io}; the reference listing of a package is the exported functions, variables, constants and types of gomacro's import table (not the implementation's own answer for the empty prefix, which is compared with it). "+
 		"Avoided input classes (proposed known findings): chains whose first word is a type name, values of types from other packages (unexported members), two promoted members of equal name at equal depth. "+
 		"A case is non-trivial when it has at least one completion; distinct by SHA-256 of (state declarations, line, cursor)")
 	// generous: creating an interpreter state (fast.New + imports + declarations) is slow on a loaded machine
